@@ -27,6 +27,7 @@ type params struct {
 	Depth   int
 	Clients int
 	Full    bool // full alphabet (thorough)
+	Real    bool // the broker talks through the real transport.BaseConn over a byte-stream view of the pipes
 }
 
 func init() {
@@ -571,6 +572,7 @@ func (h *hist) probeRetained() {
 func history(x *explore.X, pr params) {
 	h := &hist{x: x, pr: pr, m: newModel(), cl: map[string]*env.Client{}}
 	h.w = env.NewWorld(x, func(m *broker.MemoryBackend) { m.SessionQueueSize = 64 })
+	h.w.Real = pr.Real
 	var evs []event
 	switch pr.Mode {
 	case "table":
@@ -646,7 +648,7 @@ func (h *hist) fingerprint() string {
 func explorePart(r *report.Report, name string, p params, bound int, nontrivial ...string) {
 	js, _ := json.Marshal(p)
 	st := explore.Explore(explore.Config{Harness: "pubsub.hist", Params: string(js), Bound: bound, Workers: report.Workers(), Deadline: r.Deadline()})
-	r.AddExploration(name, "history", fmt.Sprintf("all event sequences of depth %d, mode %s, %d clients, full alphabet %v, delay bound %d", p.Depth, p.Mode, p.Clients, p.Full, bound), st,
+	r.AddExploration(name, "history", fmt.Sprintf("all event sequences of depth %d, mode %s, %d clients, full alphabet %v, over transport.BaseConn %v, delay bound %d", p.Depth, p.Mode, p.Clients, p.Full, p.Real, bound), st,
 		"one execution = one history; after every event every client's inbox is compared at quiescence with the reference model (multiset of topic/payload/retain flag, QoS within the allowed capped set); states = distinct (subscription tables, retained set) reached; non-trivial = comparisons in which at least one delivery arrived (counted)",
 		nontrivial...)
 }
@@ -666,7 +668,9 @@ func runC06(r *report.Report) {
 		explorePart(r, "nested-filters-depth4", params{Mode: "nested", Depth: 4}, 0, "delivery")
 		explorePart(r, "multi-2clients", params{Mode: "multi", Depth: 4, Clients: 2}, 0, "delivery")
 		explorePart(r, "multi-2clients-reordered", params{Mode: "multi", Depth: 2, Clients: 2}, 1, "delivery")
+		explorePart(r, "multi-2clients-over-baseconn", params{Mode: "multi", Depth: 3, Clients: 2, Real: true}, 0, "delivery")
 	} else {
+		explorePart(r, "multi-2clients-over-baseconn", params{Mode: "multi", Depth: 4, Clients: 2, Real: true}, 0, "delivery")
 		explorePart(r, "table-depth3", params{Mode: "table", Depth: 3, Full: true}, 0, "delivery")
 		explorePart(r, "nested-filters-depth5", params{Mode: "nested", Depth: 5}, 0, "delivery")
 		// (smaller parts first: the internal budget, if it is reached, then cuts only the largest one)
